@@ -65,6 +65,20 @@ def spec_strategy(methods=('nla', 'chic'), max_contigs=6, max_mols=14, extras=Tr
                 if far < contigs[src['tid']][1] - 140:
                     mol.update(tid=src['tid'], site=far)
             mols.append(mol)
+        big = [i for i in range(nc) if i not in empty and contigs[i][1] >= 6000]
+        if big and draw(st.integers(0, 5)) == 0:
+            # two molecules of one cell at one cut, UMIs far apart, one ending ~100 bp further downstream than the other,
+            # and a third molecule whose end lies half a buffer window (5000 bp) behind a point between these two ends:
+            # when it is read, only one of the two molecules of that cut may leave the buffer
+            tid = draw(st.sampled_from(big))
+            site = draw(st.integers(60, contigs[tid][1] - 5400))
+            cell = draw(st.integers(0, ncell - 1))
+            short = {'r1len': 20, 'r2': 'none', 'gap': 0, 'r2len': 20, 'clip': 0, 'lane': 1}
+            long_ = {'r1len': 50, 'r2': 'mapped', 'gap': 40, 'r2len': 40, 'clip': 0, 'lane': 1}
+            mols.append({'tid': tid, 'site': site, 'rev': False, 'cell': cell, 'umi': pool[0], 'copies': [dict(short), dict(short)]})
+            mols.append({'tid': tid, 'site': site, 'rev': False, 'cell': cell, 'umi': pool[3 % len(pool)], 'copies': [dict(long_), dict(short)]})
+            mols.append({'tid': tid, 'site': site + 5000 + draw(st.integers(8, 95)), 'rev': False, 'cell': draw(st.integers(0, ncell - 1)),
+                         'umi': draw(st.sampled_from(pool)), 'copies': [dict(short)]})
         ex = []
         if extras:
             kinds = ['unmapped_pair', 'unmapped_pair', 'r1_mapped_r2_unmapped', 'r1_unmapped_r2_mapped', 'orphan_r1',
